@@ -412,7 +412,22 @@ class Sim:
             h.ev("fs", "tempdir", len(h.tempdirs))
             return td
 
-        self._patch(m_runner, "tempfile", types.SimpleNamespace(TemporaryDirectory=fake_tempdir))
+        def fake_mkdtemp(*a, **kw):
+            kw["dir"] = tmp_parent
+            name = _real_tempfile.mkdtemp(*a, **kw)
+            h.tempdirs.append(name)
+            h.fs_events.append(("tempdir", len(h.tempdirs)))
+            h.ev("fs", "tempdir", len(h.tempdirs))
+            return name
+
+        # the whole tempfile API is there (a library change may reach for another factory); the two that
+        # create directories are recorded and confined to the run's scratch root
+        tmp_shim = types.ModuleType("tempfile_shim")
+        tmp_shim.__dict__.update({k: v for k, v in _real_tempfile.__dict__.items() if not k.startswith("__")})
+        tmp_shim.TemporaryDirectory = fake_tempdir
+        tmp_shim.mkdtemp = fake_mkdtemp
+        tmp_shim.tempdir = tmp_parent
+        self._patch(m_runner, "tempfile", tmp_shim)
 
         answers = list(self.scn.get("observer", {}).get("answers", []))
 
